@@ -32,6 +32,11 @@ func c13Scenarios(tier string) []runner.Job {
 		job(tr(sim.RelCfg("c13-rel-k5-2p-life", 0, 5, 2, 8, fBld|fMove|fRet|fBRem|fReset|fReg, 0), false), pick(tier, 6, 8), 2),
 		job(tr(sim.RichRelCfg("c13-rich-two-nodes-registered", 2, true, fMove|fRet|fBRem|fBSet|fReset, 0), false), pick(tier, 4, 5), 2),
 		job(tr(sim.RichRelCfg("c13-rich-two-nodes-events", 1, false, fMove|fRet|fBRem|fBExch|fReg|fQ, 0), true), pick(tier, 3, 4), 1),
+		job(tr(func() *sim.Cfg {
+			c := sim.RichEmptiedCfg("c13-rich-emptied-tables", 2, true, fBRem|fRet|fReset|fMove, 0)
+			c.BatchRefs = []int{0, 5}
+			return c
+		}(), false), pick(tier, 3, 4), 1),
 	}
 	for i := range js {
 		js[i].CheckEveryReplay = true
